@@ -78,6 +78,10 @@ CodecViol(e, exp) ==
          {"C01/backend/decoded-argument-differs/" \o tag \o "/" \o k : k \in {k \in SrvArgKeys(e.c) :
                 k \notin DOMAIN c \/ k \notin DOMAIN e.args \/ c[k] # e.args[k]}}
          \cup (IF e.c \in FileCodes /\ (c.nfiles # e.nfds \/ c.files # e.fdids) THEN {"C01/backend/received-descriptors-differ/" \o tag} ELSE {})
+         \* what the server wrote does not parse into whole messages: a header whose size field is not the number of bytes
+         \* that follow it (a reader that trusts the field waits, or takes the head of the next message for payload)
+         \cup (IF exp.out \in {"reply", "ack0", "nack"} /\ e.out_extra > 0
+               THEN {"C01/backend/size-field-differs-from-the-bytes-that-follow/" \o tag \o "/h=" \o e.h} ELSE {})
          \cup (IF exp.out = "reply" /\ e.nout = 1
                THEN LET m == e.out[1] body == FeReplyBody(e.c, e.args, e.hv, ok, withFile) IN
                     (IF FeReplyJudgedBytes(e.c, ok) /\ (Len(m.bytes) < Len(body) \/ SubSeq(m.bytes, 1, Len(body)) # body)
